@@ -263,22 +263,74 @@ def run(rep, prog, tier):
     stm = [x for x in pr.body if not (isinstance(x, ast.Expr) and isinstance(x.value, ast.Constant))]
     raises = [x for x in stm if isinstance(x, ast.If) and any(isinstance(y, ast.Raise) for y in x.body)]
     first_work = next((i for i, x in enumerate(stm) if not (isinstance(x, ast.If) and any(isinstance(y, ast.Raise) for y in x.body))), 0)
-    oku = any('> numpy.asarray(self.sample_sizes)' in ast.unparse(x.test) for x in raises) and all(stm.index(x) < first_work for x in raises)
+    sing_pr = single_assignments(pr)
+    # (the guards may read the sizes through a local; a local binding of an attribute is not work)
+    def is_guard_or_binding(x):
+        return (isinstance(x, ast.If) and any(isinstance(y, ast.Raise) for y in x.body)) or \
+            (isinstance(x, ast.Assign) and len(x.targets) == 1 and isinstance(x.targets[0], ast.Name) and isinstance(x.value, (ast.Attribute, ast.Name)))
+    first_work = next((i_ for i_, x in enumerate(stm) if not is_guard_or_binding(x)), 0)
+    def upward_cmp(t):
+        # some requested size exceeds the current one: ns > sample_sizes element-wise (either side may be wrapped in asarray; one is an array)
+        for c in ast.walk(inline(t, sing_pr)):
+            if isinstance(c, ast.Compare) and len(c.ops) == 1 and isinstance(c.ops[0], (ast.Gt, ast.Lt)):
+                a, b = (c.left, c.comparators[0]) if isinstance(c.ops[0], ast.Gt) else (c.comparators[0], c.left)
+                ta, tb = ast.unparse(a).replace('np.', 'numpy.'), ast.unparse(b).replace('np.', 'numpy.')
+                if ta in ('numpy.asarray(ns)', 'numpy.array(ns)', 'ns') and tb in ('numpy.asarray(self.sample_sizes)', 'numpy.array(self.sample_sizes)', 'self.sample_sizes'):
+                    return True
+        return False
+    oku = any(upward_cmp(x.test) for x in raises) and all(stm.index(x) < first_work for x in raises)
     rep.ob('R-DOM', 'project upward', oku, 'dimension and upward-projection checks precede all work', sm.rel, pr.lineno, what='projecting upward is refused')
-    txt = [ast.unparse(x) for x in stm]
-    okf = 'original_folded = self.folded' in txt and any(isinstance(x, ast.If) and ast.unparse(x.test) == 'original_folded' and ast.unparse(x.body[0]) == 'output = self.unfold()' and
-                                                         ast.unparse(x.orelse[0]) == 'output = self.copy()' for x in stm)
-    from sa.extract import two_way_return
-    okf = okf and two_way_return(stm) == ('original_folded', 'output.fold()', 'output')
-    rep.ob('R-TPL', 'project fold typestate', okf, 'folded input: unfold -> project -> fold; unfolded input: copy -> project', sm.rel, pr.lineno, what='folded spectra project as fold(project(unfold))')
-    lps = [x for x in stm if isinstance(x, ast.For)]
-    oka = len(lps) == 1 and ast.unparse(lps[0].iter) == 'enumerate(ns)' and any(ast.unparse(y) == 'output = output._project_one_axis(proj, axis)' for y in ast.walk(lps[0]) if isinstance(y, ast.Assign))
-    if oka:
-        tv = [ast.unparse(e) for e in lps[0].target.elts]
-        oka = tv == ['axis', 'proj']
-    rep.ob('R-IDX', 'project axes', oka, 'each requested size is applied to its own axis', sm.rel, lps[0].lineno if lps else pr.lineno, what='axes are projected independently, size k on axis k')
-    okl = 'output.pop_ids = self.pop_ids' in txt and 'output.extrap_x = self.extrap_x' in txt
-    rep.ob('R-FLOW', 'project labels', okl, 'pop_ids and extrap_x carried over', sm.rel, pr.lineno, what='labels and extrap_x survive projection')
+    # what project() does for folded and unfolded spectra of 1..3 populations, whichever axes need projecting: abstract execution
+    from sa import miniexec as mx
+    from sa import alpha as _alpha
+    known_ = _alpha.load_table().get('__params__', {}).get(sm.rel)
+    known_ = set(known_) if known_ is not None else None
+    bad_fold, bad_axes, bad_lab = [], [], []
+    n_paths = 0
+    for D in (1, 2, 3):
+        for folded in (False, True):
+            it = mx.Interp(prog, sm, known_functions=known_)
+            selfv = mx.Sym('self', truth=True, attrs={'Npop': D, 'ndim': D, 'folded': folded, 'sample_sizes': mx.Sym('self.sample_sizes', length=D)})
+            try:
+                paths = it.run(pr, {'self': selfv, 'ns': mx.Sym('ns', length=D)})
+            except mx.Undecidable as e:
+                raise AnalysisError('Spectrum.project is not recognised: %s' % e)
+            tagp = '%d populations, %s' % (D, 'folded' if folded else 'unfolded')
+            for outcome, events, dec in paths:
+                if outcome[0] != 'return':
+                    continue
+                n_paths += 1
+                v = outcome[1]
+                base = mx.method_call(v, 'fold')
+                if (base is not None) != folded:
+                    bad_fold.append('%s: result %s' % (tagp, 'folded again' if base is not None else 'not folded again'))
+                if base is not None:
+                    v = base
+                labelled = v
+                ks = []
+                while mx.method_call(v, '_project_one_axis') is not None:
+                    args_ = v.struct[2]
+                    kw_ = v.struct[3]
+                    n_arg = args_[0] if args_ else kw_.get('n')
+                    a_arg = args_[1] if len(args_) > 1 else kw_.get('axis')
+                    if not isinstance(a_arg, int) or mx.show(n_arg) != 'ns[%d]' % a_arg:
+                        bad_axes.append('%s: _project_one_axis(%s, %s)' % (tagp, mx.show(n_arg), mx.show(a_arg)))
+                    ks.append(a_arg)
+                    v = mx.method_call(v, '_project_one_axis')
+                ks.reverse()
+                if ks != sorted(set(k_ for k_ in ks if isinstance(k_, int))) or (all(dec) and len(dec) == D and ks != list(range(D))):
+                    bad_axes.append('%s: axes projected %s' % (tagp, ks))
+                start = mx.show(v)
+                if start != ('self.unfold()' if folded else 'self.copy()'):
+                    bad_fold.append('%s: projection starts from %s' % (tagp, start[:40]))
+                sets = {e[2]: mx.show(e[3]) for e in events if e[0] == 'setattr' and e[1] == mx.show(labelled)}
+                if sets.get('pop_ids') != 'self.pop_ids' or sets.get('extrap_x') != 'self.extrap_x':
+                    bad_lab.append('%s: %s' % (tagp, sets))
+    rep.ob('R-TPL', 'project fold typestate', not bad_fold and n_paths >= 6, '; '.join(sorted(set(bad_fold))[:3]) if bad_fold else 'folded input: unfold -> project -> fold; unfolded input: copy -> project (%d paths executed abstractly)' % n_paths,
+           sm.rel, pr.lineno, what='folded spectra project as fold(project(unfold))')
+    rep.ob('R-IDX', 'project axes', not bad_axes, '; '.join(sorted(set(bad_axes))[:3]) if bad_axes else 'each requested size is applied to its own axis', sm.rel, pr.lineno,
+           what='axes are projected independently, size k on axis k')
+    rep.ob('R-FLOW', 'project labels', not bad_lab, '; '.join(sorted(set(bad_lab))[:2]) if bad_lab else 'pop_ids and extrap_x carried over', sm.rel, pr.lineno, what='labels and extrap_x survive projection')
     # ---- (4) other call sites --------------------------------------------------------------------------------------------
     fcd = prog.func(SM, 'Spectrum._from_count_dict')
     cs = [c for c in own_nodes(fcd) if isinstance(c, ast.Call) and dotted(c.func) == '_cached_projection']
